@@ -212,6 +212,10 @@ def looks_malformed(to: bytes, off: bytes):
         return True
     if off in (b"", b"UTC", b"+9", b"0900", b"Z", b"+24:00", b"+09:60"):
         return True
+    # a well-formed offset followed by anything at all ("+09:00:00", "+0900 JST", "+00:00Z", "+09:00 "): the parse must
+    # consume the whole string, an unparseable offset never makes an element ready
+    if re.match(rb"^[+-]\d\d:?\d\d.+$", off, re.S):
+        return True
     return False
 
 
